@@ -11,7 +11,8 @@ Decided:
       negate_blocks maps x to -x on those slices of a copy
   W4  fkron attaches to operator n the string charge of strictly later operators; sign_canonical_order pops the
       site and its charge with the same index
-Not decided: order independence of ncon with swaps, jump-move resolution, the CAR of fkron (value level).
+  W5  jump moves of ncon/einsum swap resolution: parity command on every path, toggles, collection, executor exhaustive
+Not decided: order independence of ncon with swaps (termination/completeness of the resolution), the CAR of fkron (value level).
 """
 from __future__ import annotations
 
@@ -96,6 +97,112 @@ def mod2_before_use(fn, sumcall, parent):
     return False
 
 
+EIN = "yastn.tensor._einsum"
+
+
+def _nested(fn, name):
+    for n in ast.walk(fn):
+        if isinstance(n, ast.FunctionDef) and n.name == name and n is not fn:
+            return n
+    return None
+
+
+def _cmd_appends(fn):
+    """commands.append((KIND, ...)) calls -> (call, KIND, tuple node)"""
+    out = []
+    for c in ast.walk(fn):
+        if isinstance(c, ast.Call) and A.callee_attr(c) == "append" and isinstance(c.func, ast.Attribute) and A.text(c.func.value) == "commands" \
+                and c.args and isinstance(c.args[0], ast.Tuple) and c.args[0].elts and isinstance(c.args[0].elts[0], ast.Constant) \
+                and isinstance(c.args[0].elts[0].value, str):
+            out.append((c, c.args[0].elts[0].value, c.args[0]))
+    return out
+
+
+def run_W5(chk):
+    """jump-move bookkeeping of ncon/einsum with swaps: pairing and exhaustiveness rules read off the code itself"""
+    prog = chk.prog
+    rbs = prog.func(EIN, "_resolve_bad_swaps")
+    jump = _nested(rbs.node, "jump")
+    chk.require(jump is not None, "_resolve_bad_swaps: nested function jump() not found")
+    tid = jump.args.args[0].arg
+    partner = jump.args.args[2].arg
+    cfg = CFG(jump)
+    par = A.enclosing_map(jump)
+    signs = [A.stmt_of(c, par) for c, k, t in _cmd_appends(jump) if k == "parity_sign" and len(t.elts) >= 2 and A.text(t.elts[1]) == tid]
+    ok = bool(signs) and cfg.always_followed(cfg.entry.id, signs, strict=True)
+    chk.verdict("W5", (rbs, signs[0] if signs else jump), f"jump(): every path emits ('parity_sign', {tid}, ...)", True if ok else False,
+                f"_resolve_bad_swaps.jump(): there is a path to return that does not emit the parity_sign command for the jumped tensor "
+                f"`{tid}`: moving a line across *all* legs of a parity-odd tensor yields (-1)^(parity * n_line); with the command "
+                f"skipped the sign is lost exactly when that tensor is odd (tests use even third-party tensors)")
+    # the line is toggled against every other leg of the jumped tensor
+    loops = [n for n in ast.walk(jump) if isinstance(n, ast.For) and isinstance(n.iter, ast.Call) and A.call_name(n.iter) == "range"
+             and A.text(n.iter.args[0]) == f"nlegs[{tid}]" and len(n.iter.args) == 1]
+    tog = [c for lp in loops for c in ast.walk(lp) if isinstance(c, ast.Call) and A.call_name(c) == "toggle" and len(c.args) == 2
+           and A.text(c.args[1]) == partner and f"{tid}, {A.text(lp.target)}" in A.text(c.args[0])]
+    if not tog:
+        # comprehension form: for l in others, others = [l for l in range(nlegs[tid]) if l not in skip]
+        b = A.local_bindings(jump)
+        for lp in [n for n in ast.walk(jump) if isinstance(n, ast.For) and isinstance(n.iter, ast.Name)]:
+            ds = [v for st, v, k in b.get(lp.iter.id, []) if v is not None]
+            if len(ds) == 1 and isinstance(ds[0], ast.ListComp) and f"range(nlegs[{tid}])" in A.text(ds[0]):
+                tog += [c for c in ast.walk(lp) if isinstance(c, ast.Call) and A.call_name(c) == "toggle" and len(c.args) == 2
+                        and A.text(c.args[1]) == partner]
+    chk.verdict("W5", (rbs, tog[0] if tog else jump), "jump(): toggle(edge_of[tid, l], partner) for every other leg l of tid", True if tog else False,
+                "_resolve_bad_swaps.jump(): the moved line is not toggled against the other legs of the jumped tensor")
+    # every jump is followed by collect_same_tensor() and preceded by discarding the resolved swaps
+    ocfg = CFG(rbs.node)
+    opar = A.enclosing_map(rbs.node)
+    jcalls = [c for c in A.walk_local(rbs.node, include_self=False) if isinstance(c, ast.Call) and A.call_name(c) == "jump"]
+    coll = [A.stmt_of(c, opar) for c in A.walk_local(rbs.node, include_self=False) if isinstance(c, ast.Call) and A.call_name(c) == "collect_same_tensor"]
+    disc = [A.stmt_of(c, opar) for c in A.walk_local(rbs.node, include_self=False) if isinstance(c, ast.Call) and A.text(c.func) == "z2.discard"]
+    chk.require(len(jcalls) >= 2, "_resolve_bad_swaps: two jump() call sites expected (third-party step and final step)")
+    for c in jcalls:
+        st = A.stmt_of(c, opar)
+        succs = ocfg.succ[ocfg.node_of[st].id]
+        nxt_ok = all(ocfg.nodes[x].ast in coll for x in succs)
+        chk.verdict("W5", (rbs, st), f"`{A.short(st, 50)}` is directly followed by collect_same_tensor()", True if nxt_ok else False,
+                    "_resolve_bad_swaps: swaps newly created by a jump that land on one tensor are not collected into swap_gate commands")
+        blk = A.block_of(st, opar)
+        before = blk[:blk.index(st)] if blk and st in blk else []
+        dfirst = any(d is b or d in list(ast.walk(b)) for b in before for d in disc)   # directly, or in a loop over the resolved keys
+        chk.verdict("W5", (rbs, st), f"`{A.short(st, 50)}`: the resolved swap(s) are discarded from z2 first", True if dfirst else False,
+                    "_resolve_bad_swaps: a jump is made without removing the swap it resolves: the swap is applied twice (sign cancels)")
+    # exhaustiveness: every command kind emitted in _einsum is executed
+    m = prog.module(EIN)
+    emitted = {}
+    for f in prog.all_funcs({EIN}):
+        for c, k, t in _cmd_appends(f.node):
+            emitted.setdefault(k, (f, c))
+    ex = prog.func(EIN, "_execute_commands")
+    handled = set()
+    for n in ast.walk(ex.node):
+        if isinstance(n, ast.Compare) and A.text(n.left) == "command[0]" and isinstance(n.comparators[0], ast.Constant):
+            handled.add(n.comparators[0].value)
+    chk.require("parity_sign" in emitted and "swap_gate" in emitted, "_einsum: emitted command kinds not recognised")
+    for k, (f, c) in sorted(emitted.items()):
+        chk.verdict("W5", (f, c), f"command kind {k!r} has a handler in _execute_commands", True if k in handled else False,
+                    f"the command {k!r} emitted by {f.short} is not executed by _execute_commands")
+    # the parity_sign handler: charge of the *jumped* tensor acts as a string on the partner leg of d_ten
+    br = [n for n in ast.walk(ex.node) if isinstance(n, ast.If) and A.text(n.test) == "command[0] == 'parity_sign'"]
+    chk.require(br, "_execute_commands: parity_sign branch not found")
+    body = br[0].body
+    un = [n for n in body if isinstance(n, ast.Assign) and isinstance(n.targets[0], ast.Tuple) and A.text(n.value) == "command[1:]"]
+    ok = False
+    detail = "branch not recognised"
+    if un and len(un[0].targets[0].elts) == 3:
+        jn, dn, dl = [A.text(e) for e in un[0].targets[0].elts]
+        ch = [n for n in body if isinstance(n, ast.Assign) and isinstance(n.value, ast.Attribute) and n.value.attr == "n"]
+        sw = [n for n in ast.walk(br[0]) if isinstance(n, ast.Assign) and isinstance(n.value, ast.Call) and A.call_name(n.value) == "swap_gate"]
+        if ch and sw:
+            cvar = A.text(ch[0].targets[0])
+            ok = A.text(ch[0].value.value) == f"ts[{jn}]" and A.text(sw[0].targets[0]) == f"ts[{dn}]" and A.text(sw[0].value.args[0]) == f"ts[{dn}]" \
+                and A.text(A.kwarg(sw[0].value, "axes")) == dl and A.text(A.kwarg(sw[0].value, "charge")) == cvar
+            detail = f"charge of ts[{jn}] -> swap_gate(ts[{dn}], axes={dl}, charge=...)"
+    chk.verdict("W5", (ex, br[0]), f"parity_sign handler: {detail}", True if ok else False,
+                "_execute_commands: the parity_sign correction must apply the charge of the jumped tensor as a string on the partner leg "
+                "(swap_gate(ts[d_ten], axes=d_legs, charge=ts[jumped].n) stored back into ts[d_ten])")
+
+
 def run(chk):
     prog = chk.prog
     chk.explanation = (
@@ -110,6 +217,9 @@ def run(chk):
     chk.rule("W2", "parity products are restricted to fermionic components before summation and reduced mod 2 before use", floor=8)
     chk.rule("W3", "swap_gate is an involution by construction", floor=5)
     chk.rule("W4", "fkron strings carry strictly later charges; canonical ordering pops site and charge together", floor=3)
+    chk.rule("W5", "ncon/einsum jump moves: every jump emits the parity correction, toggles the other legs, is followed by "
+             "collection of same-tensor swaps; every emitted command kind is executed", floor=10)
+    run_W5(chk)
     sg = prog.func(CON, "swap_gate")
     msg = prog.func(CON, "_meta_swap_gate")
     msgc = prog.func(CON, "_meta_swap_gate_charge")
@@ -223,6 +333,8 @@ MUTANTS = [
     ("drop mod 2", "yastn/tensor/_contractions.py", "    tp = np.sum(tp[:, :, fss] * charges[:, :, fss], axis=(1, 2), dtype=np.int64) % 2", "    tp = np.sum(tp[:, :, fss] * charges[:, :, fss], axis=(1, 2), dtype=np.int64)", "W2"),
     ("swap_charges all components", "yastn/tensor/_auxiliary.py", "    return 1 - 2 * (np.sum((t0 * t1)[:, fss], dtype=np.int64).item() % 2)", "    return 1 - 2 * (np.sum((t0 * t1), dtype=np.int64).item() % 2)", "W2"),
     ("replace more than data", "yastn/tensor/_contractions.py", "    return a._replace(data=newdata)\n\n\n@lru_cache(maxsize=1024)\ndef _meta_swap_gate(", "    return a._replace(data=newdata, hfs=a.hfs[::-1])\n\n\n@lru_cache(maxsize=1024)\ndef _meta_swap_gate(", "W3"),
+    ("jump skips parity command", "yastn/tensor/_einsum.py", "        d_ten, d_leg = partner[0]\n        commands.append(('parity_sign', tid, d_ten, (d_leg,)))", "        d_ten, d_leg = partner[0]\n        if len(skip) < nlegs[tid]:\n            commands.append(('parity_sign', tid, d_ten, (d_leg,)))", "W5"),
+    ("parity from partner tensor", "yastn/tensor/_einsum.py", "            charge = ts[jumped_ten].n", "            charge = ts[d_ten].n", "W5"),
     ("string includes own charge", "yastn/tensor/_contractions.py", "sym.add_charges(*n_pattern[n+1:])", "sym.add_charges(*n_pattern[n:])", "W4"),
 ]
 BENIGN = [
